@@ -382,6 +382,30 @@ fn domain_edges(rep: &Report, tier: Tier, outcomes: &Mutex<HashSet<u64>>) {
                     );
                 }
             }
+            // a projected point that is transformed and counted must be the image of what it is transformed to: projecting
+            // the result forward again gives the point back. Otherwise the point is outside the image of the projection (e.g.
+            // in the wedge of the plane a cone does not cover) and "cannot be transformed" - yet looks valid.
+            // Judged for the projections with closed-form inverses (lcc, laea, merc), whose inverse is exact wherever it is
+            // defined. Not for somerc and omerc (far from the centre their double projection folds, see DESIGN section 4) and
+            // not for the series based tmerc/btmerc family, whose accuracy degrades gradually towards the limit of the strip
+            if ["lcc", "laea", "merc"].iter().any(|op| label.starts_with(&format!("{op} "))) {
+                let mut back = da.clone();
+                if let Ok(Ok(_)) = catch(|| ctx.apply(a, Fwd, &mut back)) {
+                    for (k, (g, b)) in da.iter().zip(back.iter()).enumerate() {
+                        if !fin(g) {
+                            continue;
+                        }
+                        let d = (b.0[0] - src[k][0]).hypot(b.0[1] - src[k][1]);
+                        if !(d < 1.0) {
+                            rep.violation(
+                                &format!("a projected point outside the image of the projection is transformed and counted (projecting the result forward does not give it back) / {label}"),
+                                json!({"def": format!("{base} ellps={ellps}"), "projected_point": src[k], "inverse_gives": g.0, "forward_again": b.0, "distance_m": d}),
+                            );
+                            break;
+                        }
+                    }
+                }
+            }
             for (k, (ca, cb)) in da.iter().zip(db.iter()).enumerate() {
                 seen.insert(hash_of(&(fin(ca), bits(ca.0[0]))));
                 let same_class = fin(ca) == fin(cb);
